@@ -284,7 +284,7 @@ func (x *Exec) panicExit(ps *State, what string) {
 	saved := x.panicking
 	x.panicking = &IfaceVal{Tag: tag, Pay: map[int]Val{}, Sym: fmt.Sprintf("panicval%d", x.callSeq)}
 	x.recovered = false
-	x.runDefers(ps)
+	x.runDefers(ps, x.curBlock)
 	recovered := x.recovered
 	x.panicking = saved
 	x.recovered = false
